@@ -222,7 +222,7 @@ class Recorder(BaseAsyncRPCClient):
                 text = str(msg)
                 if tag == "ERROR" and pages:
                     text += " || " + " | ".join(f"{t}: {b}" for t, b in pages)
-                CUR.emit("report", tag=tag, msg=text[:2000])
+                CUR.emit("report", tag=tag, msg=text[:2000], task=CUR.task_id(), step=str(msg).split("\n", 1)[0])
         return None
 
 
